@@ -255,6 +255,37 @@ pub fn oracle_c02(_rng: &mut Rng, tier: &str) -> Report {
         }
         rep.sample(format!("{} member lines under one name, {} queries", n, qs.len()));
     }
+    // very many distinct (obfuscated, arguments, original) triples that share obfuscated name and
+    // arguments: every one is its own by-params entry, in mapper and cache alike
+    for n in if thorough(tier) { vec![70_000usize, 300_000] } else { vec![200_000usize] } {
+        let mut t = String::with_capacity(n * 32);
+        t.push_str("o.Many -> many:\n");
+        for i in 0..n {
+            t.push_str(&format!("    void method{}(int) -> a\n", i));
+        }
+        let ms: &'static [u8] = Box::leak(t.into_bytes().into_boxed_slice());
+        let mapper = proto::cur::mapper(ms, true);
+        let cbytes = proto::aligned_static(&proto::cur::write_cache(ms));
+        rep.checks += 1;
+        let Ok(cache) = ProguardCache::parse(cbytes) else {
+            rep.fail("own output does not parse", vec![format!("# {} distinct methods `void method<i>(int) -> a`", n)], String::new());
+            continue;
+        };
+        let f = StackFrame::with_parameters("many", "a", "int");
+        let a: Vec<String> = mapper.remap_frame(&f).map(|x| x.method().to_string()).collect();
+        let b: Vec<String> = cache.remap_frame(&f).map(|x| x.method().to_string()).collect();
+        let distinct_a: std::collections::BTreeSet<&String> = a.iter().collect();
+        let distinct_b: std::collections::BTreeSet<&String> = b.iter().collect();
+        if a.len() != n || b.len() != n || distinct_a.len() != n || distinct_b != distinct_a {
+            rep.fail(
+                "by-params answer on a class with many distinct methods under one (name, arguments): one frame per distinct original name expected",
+                vec![format!("# mapping: class many with {} lines `void method<i>(int) -> a`", n), "FRP x6d616e79 x61 x696e74".to_string()],
+                format!("expected {} frames; mapper {} ({} distinct), cache {} ({} distinct)", n, a.len(), distinct_a.len(), b.len(), distinct_b.len()),
+            );
+        } else {
+            rep.nontrivial += 1;
+        }
+    }
     rep
 }
 
@@ -1033,8 +1064,110 @@ impl Write for ScriptSink {
             }
         }
     }
+    /// a sink that genuinely gathers: the action's byte budget is spent across the slices in order
+    fn write_vectored(&mut self, bufs: &[io::IoSlice<'_>]) -> io::Result<usize> {
+        let idx = self.calls;
+        self.calls += 1;
+        let act = match self.at {
+            Some((i, a)) if i == idx => a,
+            _ => Act::Take(self.chunk),
+        };
+        match act {
+            Act::Take(k) => {
+                let mut left = k;
+                let mut total = 0;
+                for b in bufs {
+                    let n = left.min(b.len());
+                    self.accepted.extend_from_slice(&b[..n]);
+                    total += n;
+                    left -= n;
+                    if left == 0 {
+                        break;
+                    }
+                }
+                Ok(total)
+            }
+            Act::Interrupted => Err(io::Error::new(io::ErrorKind::Interrupted, "interrupted")),
+            Act::Fail => {
+                self.failed = true;
+                Err(io::Error::new(io::ErrorKind::Other, "sink failure"))
+            }
+        }
+    }
     fn flush(&mut self) -> io::Result<()> {
         Ok(())
+    }
+}
+
+/// Two different mappings of equal length placed one after the other in the *same* buffer; the
+/// first write goes to a failing sink, the second to a healthy one: what was written for B must
+/// be B's canonical bytes (nothing may be keyed on the address or length of the source).
+fn reused_buffer_sequences(rep: &mut Report, rng: &mut Rng, n: usize) {
+    for _ in 0..n {
+        let mut cfg = Cfg::domain();
+        cfg.max_classes = 3;
+        cfg.max_members = 5;
+        let a = gen_mapping(rng, &cfg).text;
+        if a.is_empty() {
+            continue;
+        }
+        // B: same length, one name byte changed (stays in the grammar: letters only)
+        let mut b = a.clone();
+        let letters: Vec<usize> = (0..b.len()).filter(|&i| b[i].is_ascii_lowercase()).collect();
+        if letters.is_empty() {
+            continue;
+        }
+        let i = letters[rng.below(letters.len())];
+        b[i] = if b[i] == b'z' { b'y' } else { b[i] + 1 };
+        let canon_a = proto::cur::write_cache_safe(&a);
+        let canon_b = proto::cur::write_cache_safe(&b);
+        let ops = vec![format!("MAP {}", hx(&a)), format!("MAP {}", hx(&b)), "# sequence: write A into a failing sink, overwrite the same buffer with B, write B".to_string()];
+        let mut shared = a.clone();
+        for fail_at in [0usize, 1, 2, 5] {
+            rep.checks += 1;
+            shared.copy_from_slice(&a);
+            let r = catch_unwind(AssertUnwindSafe(|| {
+                let mut s1 = ScriptSink { chunk: usize::MAX, at: Some((fail_at, Act::Fail)), calls: 0, accepted: vec![], failed: false };
+                let r1 = ProguardCache::write(&ProguardMapping::new(&shared), &mut s1);
+                (r1.is_ok(), s1.failed, s1.accepted)
+            }));
+            let Ok((ok1, failed1, acc1)) = r else {
+                rep.fail("write panicked", ops.clone(), format!("fail_at={}", fail_at));
+                continue;
+            };
+            if ok1 && failed1 {
+                rep.fail("sink failure swallowed: write reported success", ops.clone(), format!("fail_at={}", fail_at));
+            }
+            if !canon_a.starts_with(&acc1) {
+                rep.fail("bytes delivered before the failure are not a prefix of the canonical bytes", ops.clone(), format!("fail_at={}", fail_at));
+            }
+            shared.copy_from_slice(&b);
+            let mut out = Vec::new();
+            let r2 = catch_unwind(AssertUnwindSafe(|| ProguardCache::write(&ProguardMapping::new(&shared), &mut out).is_ok()));
+            match r2 {
+                Ok(true) => {
+                    if out != canon_b {
+                        rep.fail(
+                            "after a failed write of A, writing B from the same buffer reported success but did not deliver B's canonical bytes",
+                            ops.clone(),
+                            format!("fail_at={} delivered {} bytes (A's cache: {}), canonical {}", fail_at, out.len(), out == canon_a, canon_b.len()),
+                        );
+                    } else {
+                        rep.nontrivial += 1;
+                    }
+                }
+                Ok(false) => rep.fail("write to a Vec failed", ops.clone(), String::new()),
+                Err(_) => rep.fail("write panicked", ops.clone(), String::new()),
+            }
+            // and A again, healthy
+            shared.copy_from_slice(&a);
+            let mut out = Vec::new();
+            let _ = ProguardCache::write(&ProguardMapping::new(&shared), &mut out);
+            if out != canon_a {
+                rep.fail("writing A again from the same buffer does not deliver A's canonical bytes", ops.clone(), String::new());
+            }
+        }
+        rep.count("reused_buffer_pairs");
     }
 }
 
@@ -1111,6 +1244,7 @@ pub fn oracle_c15(rng: &mut Rng, tier: &str) -> Report {
             rep.sample(format!("mapping {} bytes, cache {} bytes, {} write calls unlimited", text.len(), canon.len(), ncalls));
         }
     }
+    reused_buffer_sequences(&mut rep, rng, if th { 400 } else { 60 });
     rep
 }
 
@@ -1166,11 +1300,67 @@ pub fn oracle_c17(rng: &mut Rng, tier: &str) -> Report {
                 }
             }
         }
+        // a print into a sink that runs out of room at byte k (every k for short traces), then an
+        // ordinary print: the second one is unaffected
+        if i % 16 == 0 {
+            use std::fmt::Write as _;
+            let positions: Vec<usize> = if printed.len() <= 200 { (0..printed.len()).collect() } else { (0..40).map(|_| rng.below(printed.len())).collect() };
+            for k in positions {
+                rep.checks += 1;
+                let mut lim = LimitedFmt { room: k, got: String::new() };
+                let r = write!(lim, "{}", trace);
+                if r.is_ok() {
+                    rep.fail("printing into a full fmt sink reported success", vec![format!("DSPS {}", toks)], format!("room={}", k));
+                }
+                if !printed.starts_with(&lim.got) {
+                    rep.fail("bytes printed before the sink failed are not a prefix of the printed trace", vec![format!("DSPS {}", toks)], format!("room={}", k));
+                }
+                let again = trace.to_string();
+                if again != printed {
+                    rep.fail("a print after a failed print differs from the first print", vec![format!("DSPS {}", toks), format!("# sequence: print into a sink with room for {} bytes, then print normally", k)], format!("first={:?} second={:?}", printed, again));
+                    break;
+                }
+                if let Some(f) = trace.frames().first() {
+                    let mut lim = LimitedFmt { room: k.min(10), got: String::new() };
+                    let _ = write!(lim, "{}", f);
+                    let p1 = f.to_string();
+                    if StackFrame::try_parse(p1.as_bytes()).as_ref() != Some(f) {
+                        rep.fail("frame round trip after a failed print", vec![format!("FRM {}", hxs(&p1))], format!("{:?}", f));
+                        break;
+                    }
+                }
+            }
+            rep.count("failing_fmt_sink_traces");
+        }
         if i < 2 {
             rep.sample(printed);
         }
     }
     rep
+}
+
+/// `fmt::Write` sink with room for `room` bytes
+struct LimitedFmt {
+    room: usize,
+    got: String,
+}
+impl std::fmt::Write for LimitedFmt {
+    fn write_str(&mut self, s: &str) -> std::fmt::Result {
+        if s.len() <= self.room {
+            self.room -= s.len();
+            self.got.push_str(s);
+            Ok(())
+        } else {
+            // accept what fits (at a character boundary), then fail
+            let mut k = self.room;
+            while k > 0 && !s.is_char_boundary(k) {
+                k -= 1;
+            }
+            self.got.push_str(&s[..k]);
+            self.room = 0;
+            Err(std::fmt::Error)
+        }
+    }
 }
 
 // ------------------------------------------------------------------ C20: Send + Sync, concurrent == sequential
